@@ -180,12 +180,13 @@ def judge(res: dict) -> list:
         return vio
     if res["outcome"] == "returned" and res["kind"] == "exit" and res.get("fault_reached", True):
         vio.append({"law": "a dying simulator makes run() end with an error", **res})
-    if res["outcome"] == "returned" and res.get("fault_reached", True) and not res.get("error_logged"):
+    # (a process that dies some time AFTER answering a request may die after its last request: run() may then return normally)
+    if res["outcome"] == "returned" and res["kind"] != "exit_idle" and res.get("fault_reached", True) and not res.get("error_logged"):
         vio.append({"law": "a failing simulator makes run() end with an error or a logged remote error", **res})
     if res.get("elapsed", 0) > 5:
         vio.append({"law": "run() terminates promptly", **res})
     for sid, c in res["finalize_counts"].items():
-        if sid == faulty and res["kind"] == "exit" and res.get("fault_reached", True):
+        if sid == faulty and res["kind"] in ("exit", "exit_idle") and res.get("fault_reached", True):
             continue
         if c != 1:
             vio.append({"law": "every other simulator receives stop/finalize exactly once", "sim": sid, "count": c, **res})
@@ -211,7 +212,7 @@ def model_line(res: dict) -> tuple[str, str]:
     else:
         kind = "other"
     stopped = [i for i in range(res["n_sims"]) if res["finalize_counts"][f"S{i}"] >= 1 or
-               (i == res["faulty"] and res["kind"] == "exit" and res.get("fault_reached"))]
+               (i == res["faulty"] and res["kind"] in ("exit", "exit_idle") and res.get("fault_reached"))]
     impl = (("returned" if res["outcome"] == "returned" else "raised") + f" closed={'true' if res.get('loop_closed') else 'false'} "
             f"stops={len(stopped)}" + "".join(f" {i}" for i in stopped) +
             f" second-shutdown-noop={'true' if res.get('second_shutdown') == 'ok' else 'false'}")
@@ -270,7 +271,21 @@ def enumerate_cases(tier: str, rng):
         # the first simulator running ahead of a failing last one is the shape in which it is reliably busy at the fault
         ahead = [c for c in busy if c[2] == 2 and c[7][0] and c[3] in (1, 2)]
         busy = rng.sample(ahead, 3) + rng.sample([c for c in busy if c not in ahead], 3)
-    return base + legacy + flavoured + busy
+    # a subprocess simulator that dies while mosaik has NO request outstanding to it (it waits for its slow successor under lazy
+    # stepping): the death shows as end-of-stream on an idle connection, the next request must fail instead of waiting forever
+    idle = []
+    for faulty in (0, 1):
+        for index in range(0, 5):
+            for slow_tr in ("remote", "local"):
+                tr = ["local"] * 3
+                tr[faulty] = "remote"
+                tr[faulty + 1] = slow_tr
+                sl = [0, 0, 0]
+                sl[faulty + 1] = 0.3
+                idle.append((3, tr, faulty, index, "exit_idle", None, None, sl))
+    if tier == "quick":
+        idle = rng.sample(idle, 4)
+    return base + legacy + flavoured + busy + idle
 
 
 def run_suite(driver, rng, tier: str) -> dict:
@@ -288,7 +303,7 @@ def run_suite(driver, rng, tier: str) -> dict:
         r["fault_reached"] = c[3] < nreq
         results.append(r)
         hist[f"{'remote' if c[1][c[2]] == 'remote' else 'local'}:{c[4]}:{r['outcome'].split(' ')[0]}" + ("" if r["fault_reached"] else ":no-fault") +
-             (":legacy-api neighbours" if len(c) > 5 and c[5] else "") + (f":{c[6]['typ']}:{c[6]['exc']}" if len(c) > 6 and c[6] else "") + (":healthy subprocess busy" if len(c) > 7 and c[7] else "")] += 1
+             (":legacy-api neighbours" if len(c) > 5 and c[5] else "") + (f":{c[6]['typ']}:{c[6]['exc']}" if len(c) > 6 and c[6] else "") + (":healthy subprocess busy" if len(c) > 7 and c[7] and c[4] != "exit_idle" else "")] += 1
         vio.extend(judge(r))
         l, impl = model_line(r)
         lines.append(l)
@@ -305,7 +320,8 @@ def run_suite(driver, rng, tier: str) -> dict:
                      "subprocess (all local but the faulty one, and all remote): exception in the handler and process exit (os._exit); "
                      "a third of the cases (quick) / all cases (thorough) again with the healthy simulators reporting API version 2.0 / 2.2 (adapter-wrapped); "
                      "a quarter (quick) / all (thorough) of the in-process cases again with a hybrid or event-based faulty simulator raising TypeError / KeyError / RuntimeError; "
-                     "6 (quick) / 48 (thorough) cases in which a healthy subprocess simulator is in the middle of a 0.4 s step when another simulator fails" +
+                     "6 (quick) / 48 (thorough) cases in which a healthy subprocess simulator is in the middle of a 0.4 s step when another simulator fails; "
+                     "4 (quick) / 20 (thorough) cases in which a subprocess simulator dies 50 ms AFTER answering request k, while mosaik has no request outstanding to it (kind exit_idle)" +
                      ("; remote cases sampled (14)" if tier == "quick" else "; all remote cases"))}
 
 
